@@ -828,7 +828,7 @@ func check(t *testing.T, c Case) (v harness.Verdict) {
 var Sequential = harness.Define(harness.Opts{
 	Name:  "equivalence",
 	Rule:  "two Instances (same key, roots, clock) - direct and external chain storage (in-memory storage through the verif hook, the real cache from NewIssuanceChainCache: noop / LRU size 0,1,2,64, TTL none / 2 ms / 1 h, wrapped by a scripted forgetful cache) - fed the same 4-30 steps: submissions from a small chain space (issuers repeat, leaf-only paths to 4 intermediates, both entry types, pre-issuers), sequencing, get-entries / get-entry-and-proof on both, sleeps, entries pre-loaded in direct layout, storage faults (Add / FindByKey error at the n-th call, row deleted, stored chain truncated / extended / bit-flipped / swapped with another chain / emptied / one certificate dropped), cache Get errors. Oracle: every 200 of the indirect instance is byte-identical to the direct instance's answer and to the RFC 6962 encoding; without a fault the indirect instance must answer 200 whenever the direct one does. Non-trivial: a fault, a pre-loaded direct-layout leaf, or both cache hits and misses occurred",
-	Quick: 150, Thorough: 1000,
+	Quick: 150, Thorough: 600,
 }, func(t *rapid.T) Case { return genCase(t, true) }, check)
 
 // ---- concurrent variant: writers and readers on the indirect instance
@@ -1035,7 +1035,7 @@ func (r *rig) judgeAlone(v *harness.Verdict, rsp ctfex.Response, start int) {
 var Concurrent = harness.Define(harness.Opts{
 	Name:  "concurrent",
 	Rule:  "the fault-free step mix split over 2-5 goroutines (writers and readers) on the external-storage instance while a sequencer integrates batches, race detector on; every entry served must carry the RFC 6962 encoding of the chain validated at submission. Non-trivial: >= 2 submissions accepted",
-	Quick: 30, Thorough: 200, Crashy: true,
+	Quick: 30, Thorough: 120, Crashy: true,
 }, genConc, checkConc)
 
 func anyEqual(set [][]byte, b []byte) bool {
